@@ -101,7 +101,23 @@ fn validate_tokens(tokens: &[Token]) -> Result<(), ParseError> {
                     "Found invalid character during tokenization.".to_string(),
                 ));
             }
+            if word == "<UNTERMINATED>" && !parses_raw_input(tokens) {
+                return Err(ParseError::UnexpectedToken(
+                    "Unterminated string literal.".to_string(),
+                ));
+            }
         }
     }
     Ok(())
+}
+
+/// Commands handed to a PEG grammar as raw text: those grammars read string
+/// literals themselves (no backslash escapes), so the tokenizer's view of where a
+/// string ends does not apply to them.
+fn parses_raw_input(tokens: &[Token]) -> bool {
+    const RAW: [&str; 6] = ["STORE", "REMEMBER", "QUERY", "FIND", "REPLAY", "PLOT"];
+    match tokens.first() {
+        Some(Token::Word(cmd)) => RAW.iter().any(|kw| cmd.eq_ignore_ascii_case(kw)),
+        _ => false,
+    }
 }
